@@ -417,6 +417,7 @@ Proof.
   - intro H. apply andb_true_iff in H. destruct H as [Hc Hp].
     unfold wf_config in Hc. apply andb_true_iff in Hc. destruct Hc as [Hc _].
     unfold doc_endpoint, doc_issuer, token_issuer.
+    rewrite String.eqb_refl.
     rewrite (spec_eps_model r c (issuer_of c q) all_epnames probes Hc Hp). cbn.
     destruct (has_auth_and_token c); [apply String.eqb_refl | reflexivity].
   - intros _. apply spec_grants_model.
